@@ -1,5 +1,6 @@
 import ComposeVerif.Lemmas.Pipeline
 import ComposeVerif.Props.C03Doc
+import ComposeVerif.Props.C03Rows
 /-!
 # C03 — short ≡ long through the composed pipeline (`Pipeline.load`, round 6)
 
@@ -192,6 +193,33 @@ theorem load_first_service_attr (c : Cfg) (top1 top2 svcs1 svcs2 a b : KVs) (n k
   · rw [preCanonical_first c _ (by simpa using hk) hv]
     simp only [Short.docWith] at hu'
     rw [hu']; rfl
+
+/-- **first file, any two spellings of a whole document** (not only a service attribute: `include`, top-level
+resources, several attributes at once): distinct top-level keys, nothing for `EnforceUnicity` to fold, same canonical tree
+⇒ same load, with any further files -/
+theorem load_first_same_canonical (c : Cfg) (d d' : KVs) (rest : List KVs)
+    (hi : c.opts.skipInterpolation = true) (he : c.opts.skipExtends = true) (hv : c.opts.skipValidation = true)
+    (hk : (d.map Prod.fst).Nodup) (hk' : (d'.map Prod.fst).Nodup)
+    (hu : Unicity.enforceTop (.map d) = .ok (.map d)) (hu' : Unicity.enforceTop (.map d') = .ok (.map d'))
+    (hc : Short.canonical true (.map d) = Short.canonical true (.map d')) :
+    load c (d :: rest) = load c (d' :: rest) :=
+  load_short_eq_long_first c d d' rest
+    ⟨d, d', .map d, .map d', front_skip c d hi he, front_skip c d' hi he,
+      by rw [preCanonical_first c d hk hv, hu]; rfl, by rw [preCanonical_first c d' hk' hv, hu']; rfl, by rw [hi]; exact hc⟩
+
+/-- **instance, `include`**: `include: [path]` ≡ `include: [{path: path}]` through the whole load (the include list is
+canonicalised before `ApplyInclude` reads it; the composed model runs with `SkipInclude`) -/
+theorem load_first_include (c : Cfg) (top1 top2 : KVs) (pre post : List Val) (s : String) (rest : List KVs)
+    (hi : c.opts.skipInterpolation = true) (he : c.opts.skipExtends = true) (hv : c.opts.skipValidation = true)
+    (hk : ((top1 ++ ("include", Val.null) :: top2).map Prod.fst).Nodup)
+    (hu : Unicity.enforceTop (.map (top1 ++ ("include", .seq (pre ++ .str s :: post)) :: top2))
+      = .ok (.map (top1 ++ ("include", .seq (pre ++ .str s :: post)) :: top2)))
+    (hu' : Unicity.enforceTop (.map (top1 ++ ("include", .seq (pre ++ .map [("path", .str s)] :: post)) :: top2))
+      = .ok (.map (top1 ++ ("include", .seq (pre ++ .map [("path", .str s)] :: post)) :: top2))) :
+    load c ((top1 ++ ("include", .seq (pre ++ .str s :: post)) :: top2) :: rest)
+      = load c ((top1 ++ ("include", .seq (pre ++ .map [("path", .str s)] :: post)) :: top2) :: rest) :=
+  load_first_same_canonical c _ _ rest hi he hv (by simpa using hk) (by simpa using hk) hu hu'
+    (Short.canonical_include_short_eq_long true top1 top2 pre post s)
 
 /-- non-vacuity: `depends_on: [db]` vs `depends_on: {db: {condition: service_started, required: true}}` in a two-service file -/
 example (c : Cfg) (rest : List KVs) (hi : c.opts.skipInterpolation = true) (he : c.opts.skipExtends = true)
